@@ -81,6 +81,19 @@ func c12Value(h *H, kind int) (c object.PanObject, want bool) {
 		c, want = h.Eval(`{B: m{|| mark(50); 5}}`), false
 	case 17: // a value with no B at all
 		c, want = h.Eval(`BaseObj.bear({})`), false
+	case 26: // booleans as PRODUCED by operations and built-ins (not written as literals): a solver
+		// choice of producer and polarity; whatever produced it, a boolean follows the one rule
+		prods := [][2]string{
+			{`JSON.dec("true")`, `JSON.dec("false")`}, {`JSON.dec("[true]")[0]`, `JSON.dec("[false]")[0]`}, {`JSON.dec("{\"a\": true}").a`, `JSON.dec("{\"a\": false}").a`},
+			{`1 == 1`, `1 == 2`}, {`!nil`, `!1`}, {`1.kindOf?(Int)`, `1.kindOf?(Str)`}, {`[].empty?`, `[1].empty?`}, {`1.try.val?`, `1.try.err?`},
+			{`1 < 2`, `2 < 1`}, {`"a".B`, `"".B`}, {`[1].any? {|x| x == 1}`, `[1].all? {|x| x == 2}`}, {`1 != 2`, `1 != 1`}, {`2 === 2`, `2 === 3`}, {`4.even?`, `3.even?`}, {`[1, 2].has?(1)`, `[1, 2].has?(3)`},
+		}
+		pr := prods[rt.Choice(len(prods))]
+		if rt.Bool() {
+			c, want = h.Eval(pr[0]), true
+		} else {
+			c, want = h.Eval(pr[1]), false
+		}
 	default: // 18..25: descendants of built-in kinds that carry their OWN B: the user's B decides,
 		// never the built-in value (every conditional construct must consult it)
 		b := rt.Bool()
